@@ -302,14 +302,66 @@ def cl1(F, R):
         R.bad("CL4", "CL4/Sodg::clone/write", b.where(s2), "clone() writes memory (%s)" % show(b.expr_place(st["lhs"], s2), b))
 
 
+def fieldwise_clone(F, adt):
+    """None if the hand-written `<adt as Clone>::clone` is what the derive would produce (every field / every variant's
+    payload cloned from the same place of `self`); otherwise a description of the first deviation"""
+    b = F.fn(adt, "clone", "std::clone::Clone")
+    a = F.adts.get(adt)
+    if b is None or a is None:
+        return "no clone body"
+
+    def same_place(v, want):
+        v = strip_load(v)
+        for _ in range(3):
+            if v[0] == "call" and v[1].split("::")[-1] in ("clone", "to_owned", "to_vec") and v[2]:
+                v = strip_load(v[2][0])
+        return strip_sites(v) == strip_sites(want)
+    aggs = []
+    for site, kind, s in b.sites():
+        if kind == "stmt" and s["k"] == "assign" and s["rv"]["k"] == "aggregate" and s["rv"].get("adt") == adt:
+            aggs.append((site, b.expr_rvalue(s["rv"], site)))
+    rets = returned_exprs(b)
+    if any(strip_load(r)[0] == "param" for r in rets) and not aggs:
+        return None     # `*self` of a Copy type
+    seen = set()
+    for site, e in aggs:
+        var = e[2]
+        vdecl = [v for v in a["variants"] if v["name"] == var]
+        if not vdecl:
+            return "unknown variant %s" % var
+        if a["kind"] == "Enum":
+            facts = b.facts_at(site)
+            if len(a["variants"]) > 1 and not any(f[0] == "in" and f[2] == frozenset([var]) and strip_load(f[1])[0] == "discr" and
+                                                   strip_load(strip_load(f[1])[1]) == ("param", 1) for f in facts):
+                return "variant %s is built on a path where self is not known to be %s" % (var, var)
+        for (fname, fe), fd in zip(e[3], vdecl[0]["fields"]):
+            want = ("vfield", ("param", 1), var, fname) if a["kind"] == "Enum" else ("field", ("param", 1), "%s::%s" % (adt, fname))
+            if not same_place(fe, want):
+                return "field %s of %s is not a copy of the same field of self (%s)" % (fname, var, show(fe, b)[:120])
+        seen.add(var)
+    missing = [v["name"] for v in a["variants"] if v["name"] not in seen]
+    if missing:
+        return "variant(s) %s never produced" % missing
+    for r in rets:
+        r0 = strip_load(r)
+        arms = list(r0[1]) if r0[0] == "phi" else [r0]
+        if not all(strip_load(x)[0] == "agg" and strip_load(x)[1] == adt for x in arms):
+            return "returns something other than the rebuilt value"
+    return None
+
+
 def cl23(F, R):
     for adt in ("Vertex", "Hex", "Label", "Persistence"):
         imp = [i for i in F.impls if i["self_adt"] == adt and i["trait"] == "std::clone::Clone"]
         if not imp:
             R.bad("CL2", "CL2/%s/Clone-missing" % adt, "(lib)", "%s does not implement Clone" % adt)
         elif not imp[0]["derived"]:
-            R.bad("CL2", "CL2/%s/Clone-hand-written" % adt, imp[0]["span"],
-                  "Clone for %s is hand-written: a clone may share or drop part of the value" % adt)
+            why = fieldwise_clone(F, adt)
+            if why is None:
+                R.ok("CL2", imp[0]["span"], "hand-written Clone for %s clones every field / variant payload from the same place (what the derive does)" % adt)
+            else:
+                R.bad("CL2", "CL2/%s/Clone-hand-written" % adt, imp[0]["span"],
+                      "Clone for %s is hand-written and is not the field-wise copy the derive would produce: %s" % (adt, why))
         else:
             R.ok("CL2", imp[0]["span"], "Clone for %s is derived" % adt)
     # type closure of Sodg declared in this crate
